@@ -26,6 +26,6 @@ INIT Init
 NEXT Next
 VIEW View0
 INVARIANTS Consistent NextBlockValid UtxoIsReplay Bookkeeping ClusterLimits
-PROPERTIES PackagesSound
+PROPERTIES PackagesSound PackageReplacementsSound
 ACTION_CONSTRAINT Emit
 CHECK_DEADLOCK FALSE
